@@ -1362,13 +1362,18 @@ func (up4 *UP4) modifyUP4ForwardingConfiguration(pdrs []pdr, allFARs []far, qers
 
 		if !pdr.IsAppFilterEmpty() {
 			if methodType != p4.Update_DELETE {
-				if entry, appID, err = up4.addInternalApplicationIDAndGetP4rtEntry(pdr); err == nil {
-					if entry != nil {
-						entriesToApply = append(entriesToApply, entry)
-					}
-
-					applicationID = appID
+				entry, appID, err = up4.addInternalApplicationIDAndGetP4rtEntry(pdr)
+				if err != nil {
+					// no application ID left (or no entry can be built): installing the PDR under
+					// the default application would make it match all of the UE's traffic
+					return ErrOperationFailedWithReason("allocate application ID for PDR", err.Error())
 				}
+
+				if entry != nil {
+					entriesToApply = append(entriesToApply, entry)
+				}
+
+				applicationID = appID
 			} else {
 				entry, appID := up4.getApplicationsEntryToRemove(pdr)
 				if entry != nil {
